@@ -646,22 +646,6 @@ fn find_file(root: &Path, name: &str) -> Option<std::path::PathBuf> {
     None
 }
 
-fn copy_dir(from: &Path, to: &Path) -> Result<(), String> {
-    std::fs::create_dir_all(to).map_err(|e| e.to_string())?;
-    for e in std::fs::read_dir(from).map_err(|e| e.to_string())?.flatten() {
-        let p = e.path();
-        let t = to.join(e.file_name());
-        if p.is_dir() {
-            copy_dir(&p, &t)?;
-        } else if e.file_name() != "LOCK" {
-            std::fs::copy(&p, &t).map_err(|e| format!("copy {}: {e}", p.display()))?;
-        } else {
-            let _ = std::fs::File::create(&t);
-        }
-    }
-    Ok(())
-}
-
 /// cut: file name -> Some(new length) or None (file missing)
 type Cuts = BTreeMap<String, Option<u64>>;
 
@@ -792,7 +776,7 @@ fn power_loss_family(ctx: &Ctx, cons: &Consensus, u: &Universe, dl: &[(String, B
                         return Ok(());
                     }
                     let _ = std::fs::remove_dir_all(&work);
-                    copy_dir(&dir, &work)?;
+                    crate::core::copy_dir(&dir, &work)?;
                     for (name, cut) in &cuts {
                         let Some(path) = find_file(&work.join("ancient"), name) else { return Err(format!("file {name} not found in the copy")) };
                         match cut {
